@@ -2,14 +2,26 @@
 
 package internal
 
-// VerifPoint, when set, is called at a handful of named places between critical sections of the poller
+import "sync/atomic"
+
+// verifPointFn, when set, is called at a handful of named places between critical sections of the poller
 // (see the verifPoint calls in poll_linux.go). A runtime monitor uses it to widen interleaving windows
 // (yield/sleep), to run the garbage collector inside a poll batch, or to count batch entries. It is nil
-// unless a monitor sets it and exists only under the `verif` build tag.
-var VerifPoint func(name string)
+// unless a monitor sets it and exists only under the `verif` build tag. It is read from every goroutine
+// that calls Post, so it is accessed atomically.
+var verifPointFn atomic.Pointer[func(name string)]
+
+// SetVerifPoint installs (or, with nil, removes) the hook.
+func SetVerifPoint(f func(name string)) {
+	if f == nil {
+		verifPointFn.Store(nil)
+		return
+	}
+	verifPointFn.Store(&f)
+}
 
 func verifPoint(name string) {
-	if f := VerifPoint; f != nil {
-		f(name)
+	if f := verifPointFn.Load(); f != nil {
+		(*f)(name)
 	}
 }
